@@ -266,6 +266,27 @@ def targeted(thorough):
         ops += [{'op': 'h2d', 'b': 3, 'off': 16 * j, 'n': 16, 'seed': 90 + j, 'q': 2} for j in range(nside)]
         ops += [{'op': 'run'}, {'op': 'd2h', 'b': 2, 'off': 0, 'n': 4096}, {'op': 'd2h', 'b': 3, 'off': 0, 'n': 256}]
         out.append({'plat': 'r9nano', 'gpus': 1, 'lp': 12, 'seed': 8, 'tag': 'copy-beside-kernel-r9nano-%d' % nside, 'ops': ops})
+    # copies interleaved with Remap / Distribute of the SAME live buffer: a copy acts on the frame (and GPU) the page
+    # table names NOW; every step is observed through the page table (Sto) and by a D2H after a copy to another page
+    for plat, lp in (('bench', 10), ('benchmagic', 10), ('emu', 12), ('r9nano', 12)):
+        p = 1 << lp
+        ops = [{'op': 'alloc', 'b': 1, 'n': 2 * p, 'gpu': 1}, {'op': 'alloc', 'b': 2, 'n': 3 * p, 'gpu': 1},
+               {'op': 'h2d', 'b': 1, 'off': 0, 'n': 2 * p, 'seed': 101},                 # last page translated: page 1
+               {'op': 'remap', 'b': 1, 'remap': [[1, 2]]},                              # page 1 -> a frame of GPU 2
+               {'op': 'h2d', 'b': 1, 'off': p + 5, 'n': 100, 'seed': 102},               # first page: page 1
+               {'op': 'h2d', 'b': 1, 'off': 3, 'n': 10, 'seed': 103},                    # another page
+               {'op': 'd2h', 'b': 1, 'off': p, 'n': p},
+               {'op': 'd2h', 'b': 1, 'off': p + 3, 'n': 50},                             # last page: page 1 again
+               {'op': 'remap', 'b': 1, 'remap': [[1, 1]]},                              # and back to GPU 1
+               {'op': 'd2h', 'b': 1, 'off': p, 'n': 64},                                 # D2H right after the remap
+               {'op': 'h2d', 'b': 1, 'off': 2 * p - 9, 'n': 9, 'seed': 104}, {'op': 'd2h', 'b': 1, 'off': 0, 'n': 2 * p},
+               {'op': 'h2d', 'b': 2, 'off': 0, 'n': 3 * p, 'seed': 105},                 # last page: page 2 of buffer 2
+               {'op': 'remap', 'b': 2, 'dist': [2, 1]},                                  # Distribute over both GPUs
+               {'op': 'h2d', 'b': 2, 'off': 2 * p + 1, 'n': p - 1, 'seed': 106},         # first page: that page
+               {'op': 'h2d', 'b': 2, 'off': p - 2, 'n': 4, 'seed': 107},                 # across pages 0/1
+               {'op': 'd2h', 'b': 2, 'off': 0, 'n': 3 * p}, {'op': 'd2h', 'b': 1, 'off': 0, 'n': 2 * p}]
+        out.append({'plat': plat, 'gpus': 2, 'lp': lp, 'h2dc': 1, 'd2hc': 1, 'env': 'fifo', 'seed': 9,
+                    'tag': 'remap-live-%s' % plat, 'ops': ops})
     # a GPU that only has to flush answers after the GPUs that moved the data (2..4 GPUs)
     for g in ((2, 3, 4) if thorough else (2, 4)):
         out.append({'plat': 'bench', 'gpus': g, 'lp': 10, 'h2dc': 1, 'd2hc': 1, 'env': 'flushlast', 'seed': 3,
